@@ -9,7 +9,7 @@ import (
 )
 
 var funcWant = map[string]Want{
-	"upper": WStr, "join": WStr, "add": WNum, "len": WNum, "id": WAny, "idn": WAny,
+	"upper": WStr, "slen": WNum, "join": WStr, "add": WNum, "len": WNum, "id": WAny, "idn": WAny,
 	"coalesce": WAny, "fail": WAny, "isnull": WBool, "ns::inc": WNum, "tup": WSeq, "idu": WAny, "idm": WAny,
 }
 
@@ -55,6 +55,9 @@ func StdFuncs() map[string]*FuncSpec {
 				}
 				return cty.NilVal, errors.New("argument has no length")
 			}},
+		{Name: "slen", Params: []FuncParam{str},
+			Ret:  func(a []cty.Value) cty.Type { return cty.Number },
+			Impl: func(a []cty.Value) (cty.Value, error) { return cty.NumberIntVal(int64(len([]rune(a[0].AsString())))), nil }},
 		{Name: "id", Params: []FuncParam{anyP},
 			Ret:  func(a []cty.Value) cty.Type { return a[0].Type() },
 			Impl: func(a []cty.Value) (cty.Value, error) { return a[0], nil }},
